@@ -716,3 +716,14 @@ pub fn run_world(hdr: &Group, data: &Group, ops: &[Group]) -> Vec<Group> {
     let _ = catch_unwind(AssertUnwindSafe(move || drop(w)));
     out
 }
+
+/// Construct one reader of every kind, bracketing each construction on stderr, so that the caller
+/// can see which look-ahead diagnostics (`DANGER: ...`) the library prints for which reader.
+pub fn probe_diagnostics() {
+    let data = [0u8; 64];
+    for (name, rbits) in [("u8", 8u128), ("u16", 16), ("u32", 32), ("u64", 64), ("unbuffered", 0)] {
+        eprintln!("PROBE {} BEGIN", name);
+        let _r = make_reader(false, rbits, 0, false, false, &data);
+        eprintln!("PROBE {} END", name);
+    }
+}
